@@ -6,7 +6,9 @@ from . import common, orch, bare
 ID = "C20"
 ENGINE = "B"
 RULE = ("a directory agent and 2..3 plain Agents on InProcessCommunicationLayer; generated op "
-        "history (<=12 ops) over register/unregister computation (on its host's thread), "
+        "history (<=12 ops) over register/unregister computation (on its host's thread; in a quarter "
+        "of the histories one hand-over: a new host's publication racing with the former host's "
+        "un-publication), "
         "register/unregister replica, register/unregister a foreign agent name, subscribe/"
         "unsubscribe to agents, computations and replicas with or without callbacks; each op runs "
         "on the owning agent's thread, the driver drains or not between ops (tape-chosen), line "
@@ -567,7 +569,8 @@ STUB = ["threading/queue/time primitives (threadsim)", "control computation (har
 ASSUMPTIONS = ["channels stay FIFO (every shipped transport is); 'any order' is the interleaving "
                "across channels and with the ops",
                "the op histories respect the API contract the 37 passing discovery tests pin down: "
-               "a computation has one host at a time, replicas are registered for computations the "
+               "a computation has one host at a time (but for hand-overs, where the new host's "
+               "publication races with the former host's un-publication), replicas are registered for computations the "
                "directory and the replica host already know, un-registrations come from the "
                "registering agent",
                "a replica set is compared only for computations the agent is also subscribed to",
@@ -577,6 +580,6 @@ LEVEL_TEXT = ("Seeded search over discovery op histories and thread schedules on
               "Discovery/Directory; after a drain every still-subscribed view (agent address, "
               "computation host, replica set) is compared with the directory and the last "
               "callback event with the final state.")
-LEVEL_NOTE = "Trusted: threadsim scheduler; histories <= 12 ops over 2-3 agents, 3 computations."
+LEVEL_NOTE = "Trusted: threadsim scheduler; histories <= 12 ops (+ hand-over) over 2-3 agents, 3 computations."
 TECHNIQUE = "deterministic simulation: op-history generation + view-vs-directory comparison after drain"
 DESIGN_REF = "DESIGN.md §7 C20"
